@@ -489,7 +489,7 @@ def run_scenarios(fa, res, codec, tier):
     res.evals += 1
     rfd, wfd = os.pipe()
     chunks = []
-    t = threading.Thread(target=lambda: chunks.append(os.fdopen(rfd, "rb").read()))
+    t = threading.Thread(target=lambda: chunks.append(os.fdopen(rfd, "rb").read()), daemon=True)
     t.start()
     try:
         with os.fdopen(wfd, "wb") as sink:
